@@ -137,6 +137,21 @@ pub fn run(ctx: &Ctx) -> Outcome {
     let cfg = TapeCfg::new(ctx, 3000, 150_000, 400);
     out.shards = cfg.shards;
     out.absorb(tape_search(ctx, "main", &cfg, check, describe));
+    if !out.failed() && ctx.tier == Tier::Thorough {
+        let fr = libfuzzer(ctx, "sim_state", 1_000_000, 1600, 8);
+        out.extra.insert("libfuzzer_sim_state_runs".into(), json!(fr.runs));
+        if let Some(s) = fr.skipped {
+            out.extra.insert("libfuzzer_skipped".into(), json!(s));
+        }
+        out.stats.evaluations += fr.runs;
+        if let Some(bytes) = fr.crash {
+            let tape: Vec<u32> = bytes.chunks(4).map(|c| { let mut b = [0u8; 4]; b[..c.len()].copy_from_slice(c); u32::from_le_bytes(b) }).collect();
+            let (c, ops) = decode(&tape);
+            if let Err(m) = oracle(&c, &ops, &mut Stats::default()) {
+                out.failure = Some(Failure { case: json!({"tape": tape}), message: format!("(libFuzzer) {m}"), description: describe(&tape) });
+            }
+        }
+    }
     out.essential = ["executed", "pc-in-vector-tables", "pc-in-io-page", "sim-error-reported", "strict", "real-traps"].iter().map(|s| s.to_string()).collect();
     out
 }
